@@ -304,7 +304,7 @@ func Generate(seed int64, nCases int, outPath, scratch, jsonPath string) (*Stats
 	}
 	var casesJ []caseJSON
 	var sb strings.Builder
-	sb.WriteString("From stdpp Require Import gmap.\nFrom Rigo Require Import Ledger LedgerRun.\nLocal Open Scope N_scope.\n")
+	sb.WriteString("From stdpp Require Import gmap.\nFrom Rigo Require Import Ledger LedgerRun LedgerCheck.\nLocal Open Scope N_scope.\n")
 	sb.WriteString("Definition cases : list (list lop * list lout) := [\n")
 	seen := map[string]bool{}
 	for ci, ops := range all {
@@ -362,7 +362,7 @@ func Generate(seed int64, nCases int, outPath, scratch, jsonPath string) (*Stats
 	}
 	st.Cases = len(seen)
 	sb.WriteString("\n].\n")
-	sb.WriteString("Definition bad := Eval vm_compute in check_cases_full cases.\nPrint bad.\n")
+	sb.WriteString("Definition bad := Eval vm_compute in check_c18 cases.\nPrint bad.\n")
 	if jsonPath != "" {
 		bz, _ := json.Marshal(casesJ)
 		if err := os.WriteFile(jsonPath, bz, 0o644); err != nil {
